@@ -47,8 +47,9 @@ REQUIREMENTS
    Do not edit or add tests in the worktree.
 2. Write {sd}/demo.py: a standalone program that exits 0 when the property holds and exits 1 (printing what went wrong) when it is
    violated. It must exit 0 on the unchanged tree and 1 with your change; run as
-   `cd /tmp && PYTHONPATH={wt} TZ=UTC /venv/bin/python {sd}/demo.py`. (Check the unchanged behaviour with `git -C {wt} stash` /
-   `git -C {wt} stash pop`.)  The demo must judge by the property's own terms (an independent expected value, a relation between
+   `cd /tmp && PYTHONPATH={wt} TZ=UTC /venv/bin/python {sd}/demo.py`. (Check the unchanged behaviour with
+   `git -C {wt} diff > {sd}/p.diff; git -C {wt} apply -R {sd}/p.diff; <run demo>; git -C {wt} apply {sd}/p.diff` — NEVER use `git stash`:
+   the stash stack is shared by all worktrees of the repository and other agents are working in sibling worktrees right now.)  The demo must judge by the property's own terms (an independent expected value, a relation between
    runs, ...), not by comparing against hard-coded output of the old code that the property does not imply.
 3. Write {sd}/patch.diff with `git -C {wt} diff > {sd}/patch.diff` and LEAVE THE CHANGE APPLIED (uncommitted) in the worktree.
 4. Write {sd}/meta.json: {{"property": "{pid}", "summary": "<what the change does, 1-3 sentences>", "needs": "<what exactly is needed
